@@ -634,3 +634,62 @@ def bytes_adapter_replaces(rep, rule, prog, cg):
                 rep.bad(rule, key, b.loc(), 'BytesAdapter::replace_with for %s appends (%s) without clearing / assigning first: a second occurrence of a singular bytes field is concatenated to the first instead of replacing it' % (short(who), appends or names))
     if n < 2:
         rep.anchor_missing(rule, 'BytesAdapter::replace_with impls (found %d)' % n)
+
+
+def encode_capacity_and_key_range(rep, rule, prog, cg):
+    """(a) Message::encode / encode_length_delimited refuse a buffer only when it is too small (`required > remaining`): a
+    buffer of exactly encoded_len() bytes is sufficient; (b) decode_key accepts every field number encode_key can write
+    (1 ..= 2^29 - 1): no upper bound below MAX_TAG, no half-open range ending at it"""
+    MAX_TAG = (1 << 29) - 1
+    for nm in ('encode', 'encode_length_delimited'):
+        bs = [b for b in prog.bodies.values() if b.crate == 'pilota' and b.key == 'prost::message::Message::%s' % nm]
+        key = '%s|Message::%s capacity test' % (rule, nm)
+        if len(bs) != 1:
+            rep.anchor_missing(rule, 'prost::message::Message::%s' % nm)
+            continue
+        b = bs[0]
+        verdict = None
+        for bb in b.bbs:
+            t = bb['t']
+            if t['k'] != 'switch' or bb['cleanup']:
+                continue
+            c = b.expr_op(t['o'])
+            if c[0] == 'bin' and c[1] in ('Gt', 'Ge', 'Lt', 'Le'):
+                l_, r_ = show(nosite(c[2])), show(nosite(c[3]))
+                rem_left, rem_right = 'remaining_mut' in l_, 'remaining_mut' in r_
+                if rem_left == rem_right:
+                    continue
+                # required > remaining  /  remaining < required
+                strict_ok = (c[1] == 'Gt' and rem_right) or (c[1] == 'Lt' and rem_left)
+                # equivalent spellings of "enough": remaining >= required / required <= remaining
+                enough_ok = (c[1] == 'Ge' and rem_left) or (c[1] == 'Le' and rem_right)
+                verdict = (strict_ok or enough_ok, '%s %s %s' % (l_[:40], c[1], r_[:40]))
+        if verdict is None:
+            rep.anchor_missing(rule, 'capacity comparison in Message::%s' % nm)
+        elif verdict[0]:
+            rep.ok(rule, key, 'insufficient iff required > remaining (%s)' % verdict[1], b.loc())
+        else:
+            rep.bad(rule, key, b.loc(), 'Message::%s tests `%s`: a buffer holding exactly encoded_len() bytes is refused, so the reported length is not sufficient for the bytes written' % (nm, verdict[1]))
+    bs = [b for b in prog.bodies.values() if b.crate == 'pilota' and b.key == 'prost::encoding::decode_key']
+    key = rule + '|decode_key tag range'
+    if len(bs) != 1:
+        rep.anchor_missing(rule, 'prost::encoding::decode_key')
+        return
+    b = bs[0]
+    bad = []
+    for x in with_closures(b, cg):
+        for bb in x.bbs:
+            t = bb['t']
+            if t['k'] == 'switch' and not bb['cleanup']:
+                c = x.expr_op(t['o'])
+                if c[0] == 'bin' and c[1] in ('Gt', 'Ge', 'Lt', 'Le') and strip_casts(c[3])[0] == 'const':
+                    k = strip_casts(c[3])[1]
+                    if 1 < k <= MAX_TAG and ((c[1] in ('Ge',) and k <= MAX_TAG) or (c[1] == 'Gt' and k < MAX_TAG) or (c[1] == 'Lt' and 1 < k) or (c[1] == 'Le' and 1 <= k)):
+                        bad.append('%s %s %d' % (show(nosite(c[2]))[:30], c[1], k))
+        for cs in x.calls():
+            if cs.name == 'contains' and re.search(r'ops::Range(::)?<', cs.callee) and not re.search(r'RangeInclusive', cs.callee):
+                bad.append('half-open Range::contains')
+    if bad:
+        rep.bad(rule, key, b.loc(), 'decode_key narrows the accepted field numbers (%s): a field with the largest legal number 2^29 - 1 (or another legal one) is written by encode_key but rejected on decode' % '; '.join(bad))
+    else:
+        rep.ok(rule, key, 'only tag < 1 is refused', b.loc())
